@@ -105,7 +105,15 @@ type Scenario struct {
 	Faults   Faults
 	MaxBeats int   // heartbeat rounds (HeartbeatTick ticks each) per leader peer; HeartbeatTick*MaxBeats < ElectionTick
 	BeatAt   []int // restrict heartbeat rounds to leader peers on these stores (nil = any)
-	MaxDepth int
+	// LeaseTickAt: a follower peer on one of these stores may, once per execution, receive
+	// ElectionTick ticks of its own (per-store clocks: no lock-step time). That is exactly the
+	// point where a CheckQuorum "leader lease" kept by that follower runs out. etcd raft's
+	// randomised election timeout lies in [ElectionTick, 2*ElectionTick): with probability
+	// 1/ElectionTick the peer campaigns by itself at the last tick; such an execution is
+	// discarded and re-run (the self-campaign outcome is covered by explicit Campaign
+	// transitions), so the explored outcome is deterministic.
+	LeaseTickAt []int
+	MaxDepth    int
 	// DepthBound: MaxDepth is a declared bound (all states reachable by at most MaxDepth
 	// transitions are expanded, exactly). Otherwise MaxDepth is only a safety net and the
 	// scenario is expected to close (no enabled transition left anywhere).
@@ -128,6 +136,9 @@ func (sc *Scenario) Describe() string {
 	storage := "MemoryStorage"
 	if sc.WAL {
 		storage = "WALStorage(wal+manifest on tmpfs)"
+	}
+	if len(sc.LeaseTickAt) > 0 {
+		storage += fmt.Sprintf(" follower-clock-advance(%d ticks)@stores%v", ElectionTick, sc.LeaseTickAt)
 	}
 	beats := fmt.Sprint(sc.MaxBeats)
 	if len(sc.BeatAt) > 0 && sc.MaxBeats > 0 {
@@ -338,10 +349,15 @@ type Cluster struct {
 	votes  map[uint64][]string // per peer: (pre)vote responses delivered to it (raft keeps the tally privately)
 	wait   func()              // synctest.Wait
 	closed bool
+	lease  map[uint64]int // follower peers that already received their ElectionTick ticks
 	dir    string
 	wals   [NumStores + 1]*wal.Manager
 	mans   [NumStores + 1]*manifest.Manager
 }
+
+// RetryPrefix marks an execution error that stems from raft's internal randomness: the
+// execution is discarded and re-run.
+const RetryPrefix = "nondeterministic-outcome-discarded: "
 
 // ScratchBase is the directory under which WAL-backed scenarios create their per-execution
 // directories (set by the runner; on tmpfs).
@@ -372,7 +388,7 @@ var loggerOnce sync.Once
 func NewCluster(sc *Scenario, wait func()) (*Cluster, error) {
 	loggerOnce.Do(func() { myraft.SetLogger(discardLogger{}) })
 	c := &Cluster{sc: sc, peers: map[uint64]*peer.Peer{}, metas: map[int]manifest.RegionMeta{},
-		net: &network{q: map[link][]myraft.Message{}}, beats: map[uint64]int{}, votes: map[uint64][]string{}, wait: wait}
+		net: &network{q: map[link][]myraft.Message{}}, beats: map[uint64]int{}, votes: map[uint64][]string{}, lease: map[uint64]int{}, wait: wait}
 	if sc.WAL {
 		if ScratchBase == "" {
 			return nil, fmt.Errorf("clustermc: ScratchBase not set for a WAL-backed scenario")
@@ -525,6 +541,13 @@ func (c *Cluster) Enabled() []string {
 			out = append(out, "b:"+strconv.FormatUint(id, 10))
 		}
 	}
+	if len(c.sc.LeaseTickAt) > 0 {
+		for _, id := range c.pids {
+			if c.lease[id] == 0 && allowed(c.sc.LeaseTickAt, storeOf(id)) && c.peers[id].Status().RaftState == myraft.StateFollower {
+				out = append(out, "e:"+strconv.FormatUint(id, 10))
+			}
+		}
+	}
 	if c.devs >= c.sc.Budget {
 		return out
 	}
@@ -633,6 +656,20 @@ func (c *Cluster) Apply(tr string) error {
 			if err := c.peers[id].Campaign(); err != nil {
 				c.errs = append(c.errs, fmt.Sprintf("campaign%d:%v", id, err))
 			}
+		}
+	case "e":
+		id, err := strconv.ParseUint(arg, 10, 64)
+		if err != nil || c.peers[id] == nil || c.lease[id] != 0 {
+			return fmt.Errorf("bad lease tick %q", tr)
+		}
+		c.lease[id]++
+		for i := 0; i < ElectionTick; i++ {
+			if err := c.peers[id].Tick(); err != nil {
+				c.errs = append(c.errs, fmt.Sprintf("tick%d:%v", id, err))
+			}
+		}
+		if c.peers[id].Status().RaftState != myraft.StateFollower {
+			return fmt.Errorf("%speer %d hit its randomised election timeout at tick %d", RetryPrefix, id, ElectionTick)
 		}
 	case "p":
 		s, err := strconv.Atoi(arg)
@@ -817,8 +854,8 @@ func (c *Cluster) Key() string {
 		if err != nil {
 			fmt.Fprintf(&sb, "logerr=%v ", err)
 		}
-		fmt.Fprintf(&sb, "P%d %s t%d v%d c%d a%d/%d lead%d xfer%d hs=%d/%d/%d beats%d log:", id, st.RaftState, st.Term, st.Vote, st.Commit,
-			st.Applied, p.VerifAppliedMark(), st.Lead, st.LeadTransferee, hs.Term, hs.Vote, hs.Commit, c.beats[id])
+		fmt.Fprintf(&sb, "P%d %s t%d v%d c%d a%d/%d lead%d xfer%d hs=%d/%d/%d beats%d/%d log:", id, st.RaftState, st.Term, st.Vote, st.Commit,
+			st.Applied, p.VerifAppliedMark(), st.Lead, st.LeadTransferee, hs.Term, hs.Vote, hs.Commit, c.beats[id], c.lease[id])
 		for _, e := range ents {
 			fmt.Fprintf(&sb, " %d/%d:%s", e.Index, e.Term, entryTag(e))
 		}
